@@ -162,3 +162,93 @@ Theorem C10_rset_history_mild : forall H is_heap, heap_contract H is_heap ->
   Forall2 (fun a b => b = OUnspec \/ a = b) (run_history H cached ops) (spec_history ops).
 Proof. exact rset_history_mild. Qed.
 Print Assumptions C10_rset_history_mild.
+
+(* ---- the model is the code: gen/RSetGen.v is REGENERATED from /repo/src/dateutil/rrule.py by
+   harness/gen_rset.py on every run (class rruleset: _genitem.__init__ / __next__ / rich comparisons,
+   __init__, the four mutators through the decorator _invalidates_cache, _iter; rrulebase.__init__ and
+   _invalidate_cache, which the former call).  The generated definitions are the hand-written model
+   for ALL inputs (proofs in rset/RSetGenThm.v); a translator abort leaves a gen/RSetGen.v that does
+   not compile, so this block -- and with it the whole file -- stops checking. *)
+From V Require Import rset.RSetGenBase gen.RSetGen rset.RSetGenThm.
+
+Theorem C10_gen_genitem_init_is_model : forall st gen, gen_genitem_init st gen = genitem_init_l st gen.
+Proof. exact gen_genitem_init_is_model. Qed.
+Print Assumptions C10_gen_genitem_init_is_model.
+
+Theorem C10_gen_genitem_next_is_model : forall HL genlist self,
+  gen_genitem_next HL genlist self = genitem_next_l HL genlist self.
+Proof. exact gen_genitem_next_is_model. Qed.
+Print Assumptions C10_gen_genitem_next_is_model.
+
+Theorem C10_gen_cmp_is_model : forall a b,
+  gen_lt a b = (dt_of a <? dt_of b) /\ gen_gt a b = (dt_of a >? dt_of b) /\
+  gen_eq a b = (dt_of a =? dt_of b) /\ gen_ne a b = negb (dt_of a =? dt_of b).
+Proof. exact gen_cmp_is_model. Qed.
+Print Assumptions C10_gen_cmp_is_model.
+
+(* rruleset._iter, piece by piece: the set-up up to the two heapify calls, the exclusion-cursor loop,
+   the generator loop up to the next yield or to `self._len = total`, the code after the yield *)
+Theorem C10_gen_setup_is_model : forall HL rr rd exr exd,
+  gen_setup HL rr rd exr exd =
+  (let (rl0, n1) := gen_list_l 0 rd rr in
+   let (ex0, _) := gen_list_l n1 exd exr in
+   (heapify_l HL rl0, heapify_l HL ex0, None, 0)).
+Proof. exact gen_setup_is_model. Qed.
+Print Assumptions C10_gen_setup_is_model.
+
+Theorem C10_gen_exloop_is_model : forall HL fuel ex ritem,
+  gen_loop1 HL fuel ex ritem = ex_advance_l HL fuel ex (dt_of ritem).
+Proof. exact gen_loop1_is_model. Qed.
+Print Assumptions C10_gen_exloop_is_model.
+
+Theorem C10_gen_run_is_model : forall HL fuel rl ex lastdt total,
+  gen_run HL fuel rl ex lastdt total = run_l HL fuel rl ex lastdt total.
+Proof. exact gen_run_is_model. Qed.
+Print Assumptions C10_gen_run_is_model.
+
+Theorem C10_gen_resume_is_model : forall HL r t ex total,
+  gen_resume HL (r :: t) ex total = (advance_root_l HL (r :: t), ex, Some (dt_of r), total).
+Proof. exact gen_resume_is_model. Qed.
+Print Assumptions C10_gen_resume_is_model.
+
+(* the generator assembled from the generated pieces yields what the literal twin yields and, object
+   identities erased, what RSetModel.rset_iter yields -- so C10_rset_iter_correct etc. are theorems
+   about the regenerated code *)
+Theorem C10_gen_iter_is_twin : forall HL rr rd exr exd,
+  rset_iter_g HL rr rd exr exd = rset_iter_l HL rr rd exr exd.
+Proof. exact gen_iter_is_twin. Qed.
+Print Assumptions C10_gen_iter_is_twin.
+
+Theorem C10_gen_iter_is_model : forall HL H, lit_rel HL H ->
+  forall rr rd exr exd, rset_iter_g HL rr rd exr exd = rset_iter H rr rd exr exd.
+Proof. exact gen_iter_is_model. Qed.
+Print Assumptions C10_gen_iter_is_model.
+
+Theorem C10_gen_iter_correct : forall HL H is_heap, lit_rel HL H -> heap_contract H is_heap ->
+  forall rr rd exr exd, Forall nondec rr -> Forall nondec exr ->
+  rset_iter_g HL rr rd exr exd =
+  Some (spec_set rr rd exr exd, Some (Z.of_nat (length (spec_set rr rd exr exd)))).
+Proof.
+  intros HL H is_heap R C rr rd exr exd Hr He. rewrite (gen_iter_is_model HL H R).
+  apply (rset_iter_correct H is_heap C rr rd exr exd Hr He).
+Qed.
+Print Assumptions C10_gen_iter_correct.
+
+(* the object-level methods: __init__ (rrulebase's through super()), _invalidate_cache, the
+   decorator, the four mutators = the operations of RSetHist.v *)
+Theorem C10_gen_invalidate_is_model : forall o, gen_invalidate o = invalidate o.
+Proof. exact gen_invalidate_is_model. Qed.
+Print Assumptions C10_gen_invalidate_is_model.
+
+Theorem C10_gen_init_is_model : forall cache,
+  gen_base_init cache = new_obj cache /\ gen_rruleset_init cache = new_obj cache.
+Proof. intro cache. split; [apply gen_base_init_is_model|apply gen_rruleset_init_is_model]. Qed.
+Print Assumptions C10_gen_init_is_model.
+
+Theorem C10_gen_mutators_are_model : forall H o its,
+  (forall l, step H (o, its) (AddRRule l) = ((gen_rrule o l, its), ONone)) /\
+  (forall z, step H (o, its) (AddRDate z) = ((gen_rdate o z, its), ONone)) /\
+  (forall l, step H (o, its) (AddExRule l) = ((gen_exrule o l, its), ONone)) /\
+  (forall z, step H (o, its) (AddExDate z) = ((gen_exdate o z, its), ONone)).
+Proof. exact gen_step_mutator. Qed.
+Print Assumptions C10_gen_mutators_are_model.
